@@ -95,7 +95,7 @@ func ParseAnnounce(r Request, v6Action bool, opts ParseOptions) (*bittorrent.Ann
 	ip := r.IP
 	ipProvided := false
 	ipbytes := r.Packet[84:ipEnd]
-	if opts.AllowIPSpoofing && !isZero(ipbytes) {
+	if opts.AllowIPSpoofing && !net.IP(ipbytes).IsUnspecified() {
 		// Make sure the bytes are copied to a new slice: the address is used
 		// as given, in its own address family.
 		ip = append(net.IP{}, ipbytes...)
@@ -139,17 +139,6 @@ func ParseAnnounce(r Request, v6Action bool, opts ParseOptions) (*bittorrent.Ann
 	}
 
 	return request, nil
-}
-
-// isZero reports whether b consists of zero bytes only, which is how BEP 15
-// spells "use the source address".
-func isZero(b []byte) bool {
-	for _, c := range b {
-		if c != 0 {
-			return false
-		}
-	}
-	return true
 }
 
 type buffer struct {
